@@ -735,7 +735,7 @@ func (c *DutiesCache) storeOrAmendProposerDuties(epoch eth2p0.Epoch, dutiesForEp
 	alreadyRequestedIdxs := c.proposerDuties.requestedIdxs[epoch]
 
 	for _, idx := range dutiesForEpoch.requestedIdxs {
-		if !slices.Contains(alreadyRequestedIdxs, idx) {
+		if !slices.Contains(alreadyRequestedIdxs, idx) && !slices.Contains(newlyFetchedIdxs, idx) {
 			appended = true
 
 			newlyFetchedIdxs = append(newlyFetchedIdxs, idx)
@@ -783,7 +783,7 @@ func (c *DutiesCache) storeOrAmendAttesterDuties(epoch eth2p0.Epoch, dutiesForEp
 	alreadyRequestedIdxs := c.attesterDuties.requestedIdxs[epoch]
 
 	for _, idx := range dutiesForEpoch.requestedIdxs {
-		if !slices.Contains(alreadyRequestedIdxs, idx) {
+		if !slices.Contains(alreadyRequestedIdxs, idx) && !slices.Contains(newlyFetchedIdxs, idx) {
 			appended = true
 
 			newlyFetchedIdxs = append(newlyFetchedIdxs, idx)
@@ -832,7 +832,7 @@ func (c *DutiesCache) storeOrAmendSyncDuties(epoch eth2p0.Epoch, dutiesForEpoch 
 	alreadyRequestedIdxs := c.syncDuties.requestedIdxs[epoch]
 
 	for _, idx := range dutiesForEpoch.requestedIdxs {
-		if !slices.Contains(alreadyRequestedIdxs, idx) {
+		if !slices.Contains(alreadyRequestedIdxs, idx) && !slices.Contains(newlyFetchedIdxs, idx) {
 			appended = true
 
 			newlyFetchedIdxs = append(newlyFetchedIdxs, idx)
